@@ -231,14 +231,14 @@ theorem createObjects_ok (dis : List DI) (k : Nat) (t : Int) (s : Img) (M : WFme
         wdo_step sha ph s M P k di t hfree hids c s' hw
       have hst := createObjects_st sha ph dis (k + 1) t s' st1
       have M1' : WFmem { s' with st := st1 } :=
-        ⟨M1.magic, M1.version, M1.total, M1.doff, M1.tabEnd, M1.dsize, M1.coh, M1.acct, M1.uniq, M1.lo⟩
+        ⟨M1.magic, M1.version, M1.total, M1.doff, M1.tabEnd, M1.dsize, M1.tabRegion, M1.coh, M1.acct, M1.uniq, M1.lo⟩
       obtain ⟨st2, hc2, M2, P2, hd2, hl2, hold2, hnew2⟩ := ih (k + 1) { s' with st := st1 } M1' P1 hf1 hi1
         (by rw [hst]; exact h)
       rw [hst] at hc2 M2 P2 hd2 hl2 hold2 hnew2
       simp only at hc2 M2 P2 hd2 hl2 hold2 hnew2
       refine ⟨st2, ?_, ?_, P2, by rw [hd2, hd1], by rw [hl2, hl1], ?_, ?_⟩
       · rw [calls_append, hc1]; exact hc2
-      · exact ⟨M2.magic, M2.version, M2.total, M2.doff, M2.tabEnd, M2.dsize, M2.coh, M2.acct, M2.uniq, M2.lo⟩
+      · exact ⟨M2.magic, M2.version, M2.total, M2.doff, M2.tabEnd, M2.dsize, M2.tabRegion, M2.coh, M2.acct, M2.uniq, M2.lo⟩
       · intro x hx hxu
         obtain ⟨a1, a2⟩ := hold1 x hx hxu
         obtain ⟨b1, b2⟩ := hold2 x a1 hxu
@@ -280,8 +280,9 @@ theorem createContainerPlan_ok (be : Backend) (co : CreateOpts) (hcap : 0 ≤ co
   have hlive : live s1.rds = [] := by
     simp [s1, live, zeroDesc, List.filter_eq_nil_iff]
   have M1 : WFmem s1 := by
-    refine ⟨rfl, rfl, ?_, hdoff, ?_, ?_, ?_, ?_, ?_, ?_⟩
+    refine ⟨rfl, rfl, ?_, hdoff, ?_, ?_, ?_, ?_, ?_, ?_, ?_⟩
     · simp [s1]; omega
+    · simp [s1]
     · simp [s1]
     · simp [s1]
     · intro g
@@ -337,7 +338,7 @@ theorem createContainerPlan_ok (be : Backend) (co : CreateOpts) (hcap : 0 ≤ co
         exact ⟨by simp [objContent, this, readAt], fun h => absurd h hsz⟩
     refine ⟨st3, ?_, ?_, ?_, ?_⟩
     · rw [List.append_assoc, calls_append, hc2]; exact hf3
-    · exact WF.of_mem _ ⟨M2.magic, M2.version, M2.total, M2.doff, M2.tabEnd, M2.dsize, M2.coh,
+    · exact WF.of_mem _ ⟨M2.magic, M2.version, M2.total, M2.doff, M2.tabEnd, M2.dsize, M2.tabRegion, M2.coh,
         M2.acct, M2.uniq, M2.lo⟩ S3
     · refine Placed.of_keys { s2 with st := st2 } _ P2 rfl rfl rfl ?_
       intro i d hd hu hsz
